@@ -100,3 +100,61 @@ def visit_order(model, rep, rule, rel, cname, hname, first, then, why):
   rep.check(ok, rule, site, why, {'visits_of_' + first: len(firsts),
                                   'dispatches_reaching_' + then: len(thens)},
             line=h.node.lineno)
+
+
+def state_pairing(model, rep, rule, rels):
+  """Every manual `self.state[K].enter()` is matched by an `.exit()` of the same
+  frame on every path to every normal exit of the function (a frame left open
+  makes every later node look as if it were inside that construct)."""
+  from sa import tpl
+  n = 0
+  for rel in rels:
+    mod = model.module(rel)
+    for fi in mod.all_functions():
+      calls = []
+      for c in core.walk_no_nested(fi.node):
+        if isinstance(c, ast.Call) and isinstance(c.func, ast.Attribute) and \
+            c.func.attr in ('enter', 'exit') and not c.args:
+          try:
+            base = tpl.xnorm(fi, c.func.value, c)
+          except Exception:
+            base = core.norm(c.func.value)
+          if base.startswith('self.state['):
+            calls.append((c, c.func.attr, base))
+      if not calls:
+        continue
+      keys = sorted({b for _, _, b in calls})
+      g = pycfg.CFG(fi.node)
+      for key in keys:
+        n += 1
+        bad = None
+        for path in g.paths(limit=3000, ends={g.exit}, max_visits=2):
+          depth = 0
+          for i, _ in path:
+            for c in pycfg.calls_at(g, i):
+              for cc, kind, b in calls:
+                if cc is c and b == key:
+                  depth += 1 if kind == 'enter' else -1
+          if depth != 0:
+            last = [g.nodes[i][1] for i, _ in path if g.nodes[i][1] is not None]
+            bad = (depth, getattr(last[-1], 'lineno', None) if last else None)
+            break
+        if bad is not None and bad[0] == -1 and fi.cls is not None:
+          # the frame is opened by the block visitor's before_visit callback and
+          # closed by this function as its after_visit callback
+          for other in fi.cls.methods.values():
+            for c in core.walk_no_nested(other.node):
+              if isinstance(c, ast.Call) and core.dotted(c.func) == 'self.visit_block':
+                kw = {k.arg: core.norm(k.value) for k in c.keywords if k.arg}
+                if kw.get('before_visit') == key + '.enter' and \
+                    kw.get('after_visit') == 'self.' + fi.name:
+                  bad = None
+        rep.check(bad is None, rule, '%s:balanced(%s)' % (fi.site, key),
+                  'a path through the function leaves the %s frame %s: every node '
+                  'visited afterwards is treated as if it were still inside that '
+                  'construct' % (key, 'open' if bad and bad[0] > 0 else 'closed twice'),
+                  {'net_enters_on_path': bad[0] if bad else 0,
+                   'path_ends_at_line': bad[1] if bad else None},
+                  line=fi.node.lineno,
+                  witness='a dict comprehension followed by ordinary assignments')
+  return n
